@@ -13,6 +13,7 @@ import Proofs.C01.Sqrt
 import Proofs.C01.Jacobi
 import Proofs.C01.Totality
 import Proofs.C01.EntrySecp
+import Proofs.C01.Endo
 /-!
 # C01 — curve and field arithmetic compute exactly the group law (DESIGN.md §3 C01)
 
@@ -565,5 +566,16 @@ end Totality
 theorem ops_sub_hom_of_cofactor_one {p : ℕ} [Fact p.Prime] {C : Curve} (K : CurveOk p C) (h34 : p % 4 = 3)
     (hcof : ∀ g : Pt p C.toCurveGroup, C.n • g = 0) (hΔ : (curveOf p C.toCurveGroup).toAffine.Δ ≠ 0) :
     OpsHom (opsSub K) (EC.ops C) (Subtype.val : SubPt p C → Point) := opsSub_hom K h34 hcof hΔ
+
+/-- a component of the endomorphism law, PROVED over any field: on `y² = x³ + b` (`a = 0`), for `β³ = 1`, the map
+`(x, y) ↦ (β·x, y)` is an ADDITIVE endomorphism of Mathlib's point group.  (`EndoLawEc` for secp256k1 additionally
+needs the Jacobian cast of `endoJac`, the numeric fact `φ(G) = λ•G` and the assembly on `⟨G⟩`: NOT proved, which
+is why the GLV ladder theorems are named `…_given_endo_law`.) -/
+theorem glv_endomorphism_is_additive {F : Type} [Field F] [DecidableEq F] (b β : F) (hβ : β ^ 3 = 1)
+    (P Q : (W0 b).Point) : endoPt b β hβ (P + Q) = endoPt b β hβ P + endoPt b β hβ Q := endoPt_add b β hβ P Q
+
+/-- non-vacuity of the `…_given_endo_law` theorems: the hypothesis `EndoLaw` at the generated `λ`, `N` holds in a
+non-trivial group of order `N` (`ZMod N`, `x ↦ λ·x`) -/
+example : EndoLaw zmodRel Gen.Curves.glv_LAM Gen.Curves.glv_N := zmod_endoLaw
 
 end Props.C01
